@@ -631,6 +631,12 @@ type hsWire struct {
 	flipBit byte
 	written int
 	frags   int
+	// log: every byte ever written (what an on-path observer records)
+	log []byte
+	// holdAt >= 0: the reader is not handed bytes at stream offsets >= holdAt
+	// until the gate is lifted (the observer delays the rest of the stream)
+	holdAt  int
+	readOff int
 }
 
 type hsEnd struct {
@@ -650,6 +656,7 @@ func (e *hsEnd) Write(p []byte) (int, error) {
 	}
 	w.written += len(q)
 	w.buf = append(w.buf, q...)
+	w.log = append(w.log, q...)
 	w.cond.Broadcast()
 	return len(p), nil
 }
@@ -658,15 +665,25 @@ func (e *hsEnd) Read(p []byte) (int, error) {
 	w := e.in
 	w.mu.Lock()
 	defer w.mu.Unlock()
-	for len(w.buf) == 0 {
+	avail := func() int {
+		a := len(w.buf)
+		if w.holdAt >= 0 && w.readOff+a > w.holdAt {
+			a = w.holdAt - w.readOff
+			if a < 0 {
+				a = 0
+			}
+		}
+		return a
+	}
+	for avail() == 0 {
 		if w.closed {
 			return 0, io.EOF
 		}
 		w.cond.Wait()
 	}
 	n := len(p)
-	if n > len(w.buf) {
-		n = len(w.buf)
+	if n > avail() {
+		n = avail()
 	}
 	if len(w.pieces) > 0 {
 		k := w.pieces[w.next%len(w.pieces)]
@@ -678,6 +695,7 @@ func (e *hsEnd) Read(p []byte) (int, error) {
 	}
 	copy(p, w.buf[:n])
 	w.buf = w.buf[n:]
+	w.readOff += n
 	return n, nil
 }
 
@@ -703,7 +721,7 @@ func (e *hsEnd) SetWriteDeadline(t time.Time) error { return nil }
 func connHandshake(r *simcore.Run, initStatic, respStatic *btcec.PrivateKey, target *btcec.PublicKey, tamperAct int) (*Conn, *Conn, error) {
 	var mu sync.Mutex
 	mkWire := func() *hsWire {
-		w := &hsWire{mu: &mu, flipAt: -1}
+		w := &hsWire{mu: &mu, flipAt: -1, holdAt: -1}
 		w.cond = sync.NewCond(&mu)
 		if r.Tape.CfgDraw(4) != 0 {
 			n := 1 + r.Tape.CfgDraw(6)
@@ -732,13 +750,41 @@ func connHandshake(r *simcore.Run, initStatic, respStatic *btcec.PrivateKey, tar
 		r.Logf("attacker flips bit %02x of byte %d in act %d (on the wire)", bit, pos, tamperAct)
 	}
 	endI, endR := &hsEnd{in: wRI, out: wIR}, &hsEnd{in: wIR, out: wRI}
+	// Replay arm (honest handshakes only, one in three): an on-path observer
+	// without any private key delays the initiator's act three, replays the
+	// recorded act one on a second connection to the same listener while the
+	// first handshake is still open, and then replays the recorded act three
+	// there. The second handshake must fail, and the listener's two act twos
+	// must differ (a fresh ephemeral key per handshake).
+	replay := tamperAct == 0 && target.IsEqual(respStatic.PubKey()) && r.Tape.CfgDraw(3) == 2
+	if replay {
+		wIR.holdAt = ActOneSize
+	}
 
-	l := &Listener{
-		localStatic:   &keychain.PrivKeyECDH{PrivKey: respStatic},
-		shouldAccept:  func(*btcec.PublicKey) (bool, error) { return true, nil },
-		handshakeSema: make(chan struct{}, 1),
-		conns:         make(chan maybeConn, 1),
-		quit:          make(chan struct{}),
+	// The listener is built by lnd's own constructor (whatever state it
+	// prepares is lnd's), on a loopback socket nobody connects to; the
+	// handshakes are handed to doHandshake directly over the simulated
+	// streams.
+	l, err := NewListener(&keychain.PrivKeyECDH{PrivKey: respStatic}, "127.0.0.1:0",
+		func(*btcec.PublicKey) (bool, error) { return true, nil })
+	if err != nil {
+		// no loopback socket to be had: build the struct by hand (state the
+		// constructor would have prepared is then missing)
+		r.Count("listener_built_by_hand_no_loopback")
+		l = &Listener{
+			localStatic:   &keychain.PrivKeyECDH{PrivKey: respStatic},
+			shouldAccept:  func(*btcec.PublicKey) (bool, error) { return true, nil },
+			handshakeSema: make(chan struct{}, 2),
+			conns:         make(chan maybeConn, 2),
+			quit:          make(chan struct{}),
+		}
+	} else {
+		defer l.Close()
+		for i := 0; i < 2; i++ {
+			// doHandshake hands its slot back when it returns; take the
+			// slots the accept loop would have taken
+			<-l.handshakeSema
+		}
 	}
 	go l.doHandshake(endR)
 
@@ -764,6 +810,44 @@ func connHandshake(r *simcore.Run, initStatic, respStatic *btcec.PrivateKey, tar
 	if d.err != nil {
 		// the dialer gave up and closed; the listener side ends with an error
 		endI.Close()
+	}
+	if replay && d.err == nil {
+		r.Count("fault_handshake_replayed_on_second_connection")
+		mu.Lock()
+		rec := append([]byte(nil), wIR.log...)
+		act2 := append([]byte(nil), wRI.log...)
+		mu.Unlock()
+		if len(rec) != ActOneSize+ActThreeSize || len(act2) != ActTwoSize {
+			r.Harness("replay arm: recorded %d bytes initiator->responder, %d back", len(rec), len(act2))
+		}
+		w2IR, w2RI := mkWire(), mkWire()
+		w2IR.pieces, w2RI.pieces = nil, nil
+		atk, end2 := &hsEnd{in: w2RI, out: w2IR}, &hsEnd{in: w2IR, out: w2RI}
+		go l.doHandshake(end2)
+		_, _ = atk.Write(rec[:ActOneSize])
+		var act2b [ActTwoSize]byte
+		if _, err := io.ReadFull(atk, act2b[:]); err != nil {
+			r.Fail("handshake-fails", "the listener did not answer a second, concurrent handshake that starts with a valid act one: %v", err)
+		}
+		if bytes.Equal(act2b[:], act2) {
+			r.Fail("ephemeral-reuse", "the listener answered two concurrent handshakes with byte-identical act twos: it used the same ephemeral key for both (a recorded session can be replayed, and both sessions encrypt under the same keys)")
+		}
+		_, _ = atk.Write(rec[ActOneSize:])
+		var a2 maybeConn
+		select {
+		case a2 = <-l.conns:
+		case <-time.After(patience):
+			r.Fail("handshake-hangs", "Listener.doHandshake did not finish on the replayed connection")
+		}
+		if a2.err == nil {
+			r.Fail("handshake-accepts-replay", "an observer holding no private key completed a handshake with the listener by replaying the recorded acts one and three of an honest initiator on a second connection")
+		}
+		atk.Close()
+		// let the honest handshake finish
+		mu.Lock()
+		wIR.holdAt = -1
+		wIR.cond.Broadcast()
+		mu.Unlock()
 	}
 	var a maybeConn
 	select {
